@@ -133,7 +133,7 @@ func instrumentDir(dir string) {
 			continue
 		}
 		addImport(f)
-		dropUnusedImports(f, "sync", "time", "runtime", "sync/atomic")
+		dropUnusedImports(f, "sync", "time", "runtime", "sync/atomic", "context")
 		var buf bytes.Buffer
 		buf.WriteString("//go:build go1.18\n\n")
 		if err := format.Node(&buf, fset, f); err != nil {
@@ -364,7 +364,8 @@ func post(n ast.Node) ast.Node {
 					counts["sync.Pool"]++
 					return sel("Pool")
 				case "Map":
-					die(s.Pos(), "sync.Map (iteration order and internal locking are not modelled)")
+					counts["sync.Map"]++
+					return sel("Map")
 				default:
 					die(s.Pos(), "sync.%s", name)
 				}
@@ -386,7 +387,10 @@ func post(n ast.Node) ast.Node {
 				}
 			case "context":
 				switch name {
-				case "WithTimeout", "WithDeadline", "WithTimeoutCause", "WithDeadlineCause", "AfterFunc":
+				case "WithTimeout", "WithDeadline":
+					counts["context."+name]++
+					return sel(name)
+				case "WithTimeoutCause", "WithDeadlineCause", "AfterFunc":
 					die(s.Pos(), "context.%s inside instrumented code (its timers run on the real clock)", name)
 				}
 			}
